@@ -521,7 +521,7 @@ pub fn run(ctx: &Ctx, rep: &mut Report) {
     );
 
     // (d) random build scripts with shrinking.
-    let n = ctx.cases(30_000, 600_000);
+    let n = ctx.cases(120_000, 1_500_000);
     run_prop(
         ctx,
         rep,
@@ -532,7 +532,7 @@ pub fn run(ctx: &Ctx, rep: &mut Report) {
         check_script,
     );
     // (e) the same with option values up to the 16-bit length limit.
-    let n = ctx.cases(1_500, 30_000);
+    let n = ctx.cases(4_000, 60_000);
     run_prop(
         ctx,
         rep,
